@@ -73,7 +73,23 @@ def sumdb_model(m):
     return {"ToSize": int(m.get("toSize", 0)), "FromSize": max(1, int(m.get("fromSize", 1)))}
 
 
+_FEED = ("internal/feeder", "zz_verif_replay_test.go", "replay/feeder_replay_test.go", "TestVerifReplayFeeder", lambda m: {"any": True})
+
+_DIST = ("internal/distribute/rest", "zz_verif_replay_test.go", "replay/distribute_replay_test.go", "TestVerifReplayDistribute", lambda m: {"any": True})
+
+_READ = ("internal/http", "zz_verif_replay_test.go", "replay/http_replay_test.go", "TestVerifReplayReadAPI", lambda m: {"any": True})
+
 CONCRETISERS = {
+    "http.Server).getCheckpoint": _READ,
+    "http.Server).getLogs": _READ,
+    "http.httpForCode": _READ,
+    "http.Witness).GetLatestCheckpoint": _READ,
+    "inmemory.inMemoryPersistence).Logs": _READ,
+    "rest.Distributor).distributeForLog": _DIST,
+    "rest.Distributor).DistributeOnce": _DIST,
+    "feeder.submitToWitness$1": _FEED,
+    "feeder.submitToWitness": _FEED,
+    "feeder.FeedOnce": _FEED,
     "witness.Proof).Unmarshal": ("internal/witness", "zz_verif_replay_test.go", "replay/proof_replay_test.go", "TestVerifReplayProof", lambda m: {"K": int(m.get("gk", 0))}),
     "bastion.parseBody": ("internal/feeder/bastion", "zz_verif_replay_test.go", "replay/parsebody_replay_test.go", "TestVerifReplayParseBody", lambda m: {"any": True}),
     "sumdb.FeedLog$1": ("internal/feeder/sumdb", "zz_verif_replay_test.go", "replay/sumdb_replay_test.go", "TestVerifReplaySumDB", sumdb_model),
